@@ -9,6 +9,7 @@ Definition obs_eqb (a b : obs) : bool :=
   | BBool x, BBool y => Bool.eqb x y
   | BArg x, BArg y => oz_eqb x y
   | BCall t e, BCall t' e' => trace_eqb t t' && Bool.eqb e e'
+  | BFire d e, BFire d' e' => fevs_eqb d d' && Bool.eqb e e'
   | BDisp i r f e, BDisp i' r' f' e' => trace_eqb i i' && rsps_eqb r r' && Bool.eqb f f' && Bool.eqb e e'
   | _, _ => false
   end.
